@@ -34,6 +34,10 @@ type c09Scenario struct {
 	Procs   int         `json:"gomaxprocs"`
 	StallMS int         `json:"stall_ms"` // the server stops reading for this long (Config.Timeout is 20 ms then); 0 never
 	Toggler bool        `json:"toggler"`  // another goroutine switches state tracking on and off on the live client meanwhile
+	// Second: the session runs on the client's second connection (after a first one that was welcomed and
+	// closed, SecondGapMS earlier): its registration lines are outgoing lines too
+	Second      bool `json:"second_connection"`
+	SecondGapMS int  `json:"second_gap_ms"`
 }
 
 func genC09(t *rapid.T) *c09Scenario {
@@ -54,6 +58,10 @@ func genC09(t *rapid.T) *c09Scenario {
 		sc.Senders = append(sc.Senders, s)
 	}
 	sc.Toggler = rapid.IntRange(0, 2).Draw(t, "toggler") == 0
+	if rapid.IntRange(0, 3).Draw(t, "second") == 0 {
+		sc.Second = true
+		sc.SecondGapMS = rapid.SampledFrom([]int{0, 0, 1, 30, 250}).Draw(t, "second_gap_ms")
+	}
 	if rapid.IntRange(0, 4).Draw(t, "stall") == 0 {
 		sc.StallMS = rapid.SampledFrom([]int{30, 60, 120}).Draw(t, "stall_ms")
 	}
@@ -63,6 +71,8 @@ func genC09(t *rapid.T) *c09Scenario {
 	return sc
 }
 
+var c09Units = []string{"%", "%s", "100% ", "%d%%", "\\", "\u00e9"}
+
 // c09Line is the exact wire line sender g's i-th call must produce.
 func c09Line(g, i int, s *c09Sender) (wire string, call func(c *client.Conn)) {
 	pl := s.PayLens[i%len(s.PayLens)]
@@ -70,7 +80,12 @@ func c09Line(g, i int, s *c09Sender) (wire string, call func(c *client.Conn)) {
 	if pl > 400 && method != 0 {
 		pl = 400 // the splitting methods would cut a longer text (C11's subject); Raw takes any length
 	}
-	pay := strings.Repeat(string(rune('a'+g%26)), pl)
+	// byte for byte: letters, but also what a formatting or escaping layer would react to
+	unit := string(rune('a' + g%26))
+	if k := (g*7 + i) % 9; k < len(c09Units) {
+		unit = c09Units[k]
+	}
+	pay := strings.Repeat(unit, pl/len(unit)+1)[:pl]
 	id := fmt.Sprintf("S%d.%d", g, i)
 	switch method {
 	case 1:
@@ -117,6 +132,24 @@ func runC09(sc *c09Scenario) *Violation {
 		wg.Add(1)
 		go func() { defer wg.Done(); emit(g) }()
 	})
+	if sc.Second {
+		if err := tc.connect(); err != nil {
+			return violationf("C09", "first connect: %v", err)
+		}
+		tc.conn().SendLine(":irc.server 001 me :Welcome")
+		if !tc.syncOut(stallTimeout()) {
+			return violationf("C09", "first connection: registration never completed")
+		}
+		done := make(chan struct{})
+		go func() { tc.C.Close(); close(done) }()
+		select {
+		case <-done:
+		case <-time.After(stallTimeout()):
+			return violationf("C09", "first connection: Close did not return")
+		}
+		waitCond(stallTimeout(), func() bool { n, _, _ := connGoroutines(tc.C); return n == 0 })
+		time.Sleep(time.Duration(sc.SecondGapMS) * time.Millisecond)
+	}
 	if err := tc.connect(); err != nil {
 		return violationf("C09", "connect: %v", err)
 	}
@@ -125,6 +158,9 @@ func runC09(sc *c09Scenario) *Violation {
 		return violationf("C09", "registration never completed")
 	}
 	base := len(conn.Written())
+	if reg, _ := SplitCRLF(conn.Written()[:base]); len(reg) != 3 || reg[0] != "NICK me" || !strings.HasPrefix(reg[1], "USER ") || !strings.HasPrefix(reg[2], "PONG :vq") {
+		return violationf("C09", "the connection's first outgoing lines are %q, want NICK, USER and the answer to the first PING, once each, in that order", reg)
+	}
 	conn.PartialWrites(true)
 	if sc.Server != "fast" {
 		conn.Gate(true)
